@@ -607,19 +607,16 @@ def ops : NumOps Nat := ⟨ofDec, print⟩
 
 def isFinite (bits : Nat) : Bool := bits / 2 ^ 52 % 2048 != 2047
 
-/-- exact integer value of a double, if it is an integer: `some (neg, magnitude)` -/
+/-- `(-1)^neg · m · 2^e2` if that is an integer -/
+def intOf (neg : Bool) (m : Nat) (e2 : Int) : Option Int :=
+  if e2 ≥ 0 then some (if neg then -((m * 2 ^ e2.toNat : Nat) : Int) else ((m * 2 ^ e2.toNat : Nat) : Int))
+  else if m % 2 ^ (-e2).toNat == 0 then
+    some (if neg then -((m / 2 ^ (-e2).toNat : Nat) : Int) else ((m / 2 ^ (-e2).toNat : Nat) : Int))
+  else none
+
+/-- exact integer value of a finite double, if it is an integer -/
 def toInt? (bits : Nat) : Option Int :=
-  let neg := bits / 2 ^ 63 % 2 == 1
-  let be : Nat := bits / 2 ^ 52 % 2048
-  let frac : Nat := bits % 2 ^ 52
-  if be == 2047 then none
-  else
-    let m := if be == 0 then frac else frac + 2 ^ 52
-    let e2 : Int := if be == 0 then -1074 else (be : Int) - 1075
-    if e2 ≥ 0 then some (if neg then -((m <<< e2.toNat : Nat) : Int) else ((m <<< e2.toNat : Nat) : Int))
-    else
-      let d : Nat := 1 <<< (-e2).toNat
-      if m % d == 0 then some (if neg then -((m / d : Nat) : Int) else ((m / d : Nat) : Int)) else none
+  if dblExpField bits = 2047 then none else intOf (dblNeg bits) (dblMant bits) (dblExp2 bits)
 
 end F64
 
